@@ -423,3 +423,53 @@ def level_growth(facts):
                         out.append(ob("levels.grow-only", key, n["loc"], "violated", "%s.%s(...) in a mutator can shrink the vector of levels: levels above the new size are dropped with the items they hold while n_ / num_retained_ still count them (all sibling sites only push_back under a size test)" % (o["f"], n["cname"]), fn["qname"]))
         walk(fn["body"], v)
     return out
+
+
+def level_capacity(facts):
+    """classic quantiles: zip_buffer / merge_two_size_k_buffers take k from the CAPACITY of the level they write into, so every level
+    vector that starts empty (constructed from an allocator only) is reserved to k before it becomes part of a sketch (pushed into a
+    levels array, returned, or handed to a constructor).  A placeholder level without the reservation makes the restored / merged
+    sketch reject the next carry into that level."""
+    fns = qfns(facts, ("quantiles",))
+    out = []
+    n = 0
+    for pat, fn in sorted(fns.items()):
+        if (fn.get("rect") or "") != "datasketches::quantiles_sketch" or fn.get("body") is None:
+            continue
+        idx = [0]
+        for b in all_blocks(fn["body"], []):
+            st = stmts_of(b)
+            for i, s in enumerate(st):
+                if s.get("k") != "Decl":
+                    continue
+                for v in s.get("vars", []):
+                    ini = strip_all(v.get("init") or {})
+                    t = (v.get("t") or "")
+                    if not (t.startswith("std::vector<") or "Level" in (v.get("ts") or "")) or ini.get("k") != "Construct" or len(ini.get("args", [])) != 1:
+                        continue
+                    if "allocator" not in (strip_all(ini["args"][0]).get("t") or "").lower() and "alloc" not in txt(ini["args"][0]).lower():
+                        continue
+                    # where does the empty vector go?
+                    sink, reserved = None, False
+                    for s2 in st[i + 1:]:
+                        calls = []
+                        walk(s2, lambda x: calls.append(x) if x.get("k") == "Call" else None)
+                        if any(c.get("cname") == "reserve" and c.get("obj") is not None and strip_all(c["obj"]).get("d") == v["d"] for c in calls) and sink is None:
+                            reserved = True
+                        uses = []
+                        walk(s2, lambda x: uses.append(x) if x.get("k") == "Ref" and x.get("d") == v["d"] else None)
+                        if uses and sink is None and any(c.get("cname") in ("push_back", "emplace_back") for c in calls) or (s2.get("k") == "Return" and uses and sink is None):
+                            sink = s2
+                            break
+                    if sink is None:
+                        continue
+                    key = "quantiles_sketch::%s:%s-reserved#%d" % (fn["name"], v.get("n"), idx[0])
+                    idx[0] += 1
+                    n += 1
+                    if reserved:
+                        out.append(ob("quantiles.capacity", key, v.get("loc", fn["pat"]), "discharged", "empty level `%s` is reserved before it is used" % v.get("n"), fn["qname"]))
+                    else:
+                        out.append(ob("quantiles.capacity", key, v.get("loc", fn["pat"]), "violated", "the empty level `%s` becomes part of a sketch without reserve(k): zip_buffer takes k from the capacity of the level it fills, so the next carry into this level throws (a restored / merged sketch that cannot be updated)" % v.get("n"), fn["qname"]))
+    if n < 3:
+        out.append(ob("quantiles.capacity", "anchor", "", "unrecognised", "only %d empty levels found" % n, ""))
+    return out
